@@ -25,3 +25,42 @@ package heuristic
 //@ func (*DocumentTitleMatch).getLongestPart(title, rx)
 //@   requires f != nil && f.wordCounter != nil && rx != nil
 //@   fresh_assigns elems(string)
+
+// ---- SimilarSiblingContent (C01: index safety of the good/bad candidate windows) ----
+// blocksOK: every text block of the document is a non-nil object (established by CreateTextDocument).
+
+//@ func (*SimilarSiblingContent).findCanonicalReps(textBlocks)
+//@   trusted
+//@   requires f != nil && forall(i, 0 <= i && i < len(textBlocks), textBlocks[i] != nil)
+//@   fresh_assigns elems(ref)
+//@   ensures freshslice(result) && len(result) == len(textBlocks) && forall(i, 0 <= i && i < len(result), result[i] != nil)
+
+//@ func (*SimilarSiblingContent).isSimilarIndex(canonicalReps, i, j)
+//@   requires f != nil && 0 <= i && i < len(canonicalReps) && 0 <= j && j < len(canonicalReps) && canonicalReps[i] != nil && canonicalReps[j] != nil
+//@   assigns nothing
+
+//@ func (*SimilarSiblingContent).allowExpandFrom(textBlocks, i)
+//@   requires f != nil && 0 <= i && i < len(textBlocks) && textBlocks[i] != nil
+//@   assigns nothing
+
+//@ func (*SimilarSiblingContent).allowExpandTo(textBlocks, i)
+//@   requires f != nil && 0 <= i && i < len(textBlocks) && textBlocks[i] != nil
+//@   assigns nothing
+
+//@ func (*SimilarSiblingContent).Process(doc)
+//@   requires f != nil && doc != nil && inheap(doc.TextBlocks) && forall(i, 0 <= i && i < len(doc.TextBlocks), doc.TextBlocks[i] != nil)
+//@   loop 0 invariant 0 <= i && i <= len(textBlocks) && len(bad) == len(textBlocks) && len(good) == len(textBlocks) && len(canonicalReps) == len(textBlocks)
+//@   loop 0 invariant 0 <= badBegin && badBegin <= badEnd && 0 <= goodBegin && goodBegin <= goodEnd && goodEnd + badEnd <= i
+//@   loop 0 invariant forall(k, 0 <= k && k < badEnd, 0 <= bad[k] && bad[k] < i) && forall(k, 0 <= k && k < goodEnd, 0 <= good[k] && good[k] < i)
+//@   loop 0 invariant forall(k, 0 <= k && k < len(textBlocks), textBlocks[k] != nil) && forall(k, 0 <= k && k < len(canonicalReps), canonicalReps[k] != nil)
+//@   loop 0 invariant freshslice(bad) && freshslice(good) && disjoint(bad, good) && disjoint(bad, canonicalReps) && disjoint(good, canonicalReps) && textBlocks == old(doc.TextBlocks)
+//@   loop 1 invariant len(bad) == len(textBlocks) && len(good) == len(textBlocks) && len(canonicalReps) == len(textBlocks) && 0 <= i && i < len(textBlocks)
+//@   loop 1 invariant 0 <= badBegin && badBegin <= j && j <= badEnd && 0 <= goodBegin && goodBegin <= goodEnd && goodEnd + badEnd <= i + 1
+//@   loop 1 invariant forall(k, 0 <= k && k < badEnd, 0 <= bad[k] && bad[k] < i) && forall(k, 0 <= k && k < goodEnd, 0 <= good[k] && good[k] <= i)
+//@   loop 1 invariant forall(k, 0 <= k && k < len(textBlocks), textBlocks[k] != nil) && forall(k, 0 <= k && k < len(canonicalReps), canonicalReps[k] != nil)
+//@   loop 1 invariant freshslice(bad) && freshslice(good) && disjoint(bad, good) && disjoint(bad, canonicalReps) && disjoint(good, canonicalReps) && textBlocks == old(doc.TextBlocks)
+//@   loop 2 invariant len(bad) == len(textBlocks) && len(good) == len(textBlocks) && len(canonicalReps) == len(textBlocks) && 0 <= i && i < len(textBlocks)
+//@   loop 2 invariant 0 <= badBegin && badBegin <= badEnd && 0 <= goodBegin && goodBegin <= j && j <= goodEnd && goodEnd + badEnd <= i
+//@   loop 2 invariant forall(k, 0 <= k && k < badEnd, 0 <= bad[k] && bad[k] < i) && forall(k, 0 <= k && k < goodEnd, 0 <= good[k] && good[k] < i)
+//@   loop 2 invariant forall(k, 0 <= k && k < len(textBlocks), textBlocks[k] != nil) && forall(k, 0 <= k && k < len(canonicalReps), canonicalReps[k] != nil)
+//@   loop 2 invariant freshslice(bad) && freshslice(good) && disjoint(bad, good) && disjoint(bad, canonicalReps) && disjoint(good, canonicalReps) && textBlocks == old(doc.TextBlocks)
